@@ -13,6 +13,7 @@ from hypothesis import strategies as st
 from vlib import dm14scen as D
 from vlib import refcodec as R
 from vlib import simbus
+from vlib import simkernel as sk
 
 ADDR = 0x92000003
 OTHER_PTR = 0x91000007
@@ -38,7 +39,9 @@ class C19:
     RULE = ("a case is (transaction shape, intruder kind, copies, draw): shapes = read/write x seed-key on/off x 4 / 20 data bytes; "
             "intruder = DM14 read or write request from another source address (same or another pointer), or from the running "
             "requester's address with another pointer, injected once or three times; inside a case the undisturbed run gives N bus frames and then one run per "
-            "k in 1..N-1 injects the intruder right after frame k ('subruns'); non-trivial = a run in which the server answered "
+            "k in 1..N-1 injects the intruder right after frame k ('subruns'); for the shapes without seed/key and a foreign source address "
+            "the undisturbed run is followed by a change of roles on the same objects - the serving controller application runs a query "
+            "of its own (answered after 20 ms) during which the foreign DM14 arrives: busy answer, own result and notifications are judged; non-trivial = a run in which the server answered "
             "the intruder; distinct = distinct (shape, k); exhaustive over k per shape")
     ASSUMPTIONS = [
         "the window is the statement's: from the first DM14 until the server has received the closing DM14 (k = N, after the "
@@ -118,6 +121,44 @@ class C19:
             dw.w.run_for(3.0)
             obs["follow"] = dict(dw.results[0]) if dw.results else None
             obs["follow_expected"] = data2
+            if p.get("ownq"):
+                # roles change on the same objects: the controller application that has just SERVED two transactions now runs a
+                # query of its own (to the former client, which serves it) - and the intruder's DM14 arrives during that query
+                q = sk.SimQueue()
+                dw.client.set_notify(lambda: q.put(1))
+                dw.client.set_proceed(lambda *a: True)       # (a facade without a proceed function never notifies its application)
+                data_c = D.mem_bytes(p["data_seed"] + 5, 3)
+                res_s = {}
+
+                def c_app():
+                    q.get()
+                    sk.FAKE_TIME.sleep(0.02)          # (the serving side takes 20 ms: the intruder's DM14 falls into the running query)
+                    try:
+                        dw.client.respond(True, list(data_c), 0xFFFF, 0xFF, 2)
+                    except BaseException as e:  # noqa
+                        if isinstance(e, (sk.SimShutdown, sk.SpinDetected)):
+                            raise
+                        res_s["serve_exc"] = (type(e).__name__, str(e)[:100])
+
+                def s_app():
+                    try:
+                        v = dw.server.read(SA_C, 1, OTHER_PTR, 3, 1, False, True, 2)
+                        res_s["value"] = list(v) if v is not None else None
+                    except BaseException as e:  # noqa
+                        if isinstance(e, (sk.SimShutdown, sk.SpinDetected)):
+                            raise
+                        res_s["exc"] = (type(e).__name__, str(e)[:100])
+                raw_i = simbus.RawNode(dw.w.bus, "I2")
+                k0 = len(dw.w.bus.log)
+                n0 = len(dw.notify_calls)
+                sk.spawn(c_app, name="client-serves")
+                sk.spawn(s_app, name="server-queries")
+                idata = [3, (1 << 4) + (1 << 1) + 1] + list(ADDR.to_bytes(4, "little")) + [0x07, 0x00]
+                for dt_ in p.get("ownq_at", [0.0008]):
+                    dw.w.at(dw.w.sim.now - dw.w.t0 + dt_, lambda: raw_i.send(R.mk_id(6, 0, 0xD9, SA_S, SA_I), idata))
+                dw.w.run_for(3.0)
+                obs["ownq"] = {"result": res_s, "expected": list(data_c), "notified": len(dw.notify_calls) - n0,
+                               "to_i": [e for e in dw.w.bus.log[k0:] if e.node == "S" and ((e.can_id >> 8) & 0xFF) == SA_I]}
             obs["live"] = dw.w.liveness_problems()
         finally:
             dw.close()
@@ -135,8 +176,29 @@ class C19:
                              "bucket": "C19|%s|%s|%s" % (kind, p["intruder"], shape), "params": pp})
             return V
 
-        base = self._one(p, None)
+        base = self._one(dict(p, ownq=(not p["seed_key"] and p["intruder"].startswith("other_sa"))), None)
         V0 = mkV(None)
+        oq = base.get("ownq")
+        if oq is not None:
+            SA_I_ = p.get("sas", [D.SA_C, D.SA_S, D.SA_I])[2]
+            if "exc" in oq["result"] or oq["result"].get("value") != oq["expected"]:
+                V0("own-query-disturbed", "the controller application's own query (after having served two transactions) returned %r, "
+                   "its server supplied %r; an intruder's DM14 arrived during it" % (oq["result"], oq["expected"]), "ownq")
+            if oq["notified"]:
+                V0("intruder-reached-application", "the application was notified %d time(s) during its own query" % oq["notified"], "ownq")
+            for e in oq["to_i"]:
+                pf = (e.can_id >> 16) & 0xFF
+                status = (e.data[1] >> 1) & 7 if len(e.data) >= 2 else None
+                err = (e.data[2] | (e.data[3] << 8) | (e.data[4] << 16)) if len(e.data) >= 5 else None
+                if pf != 0xD8 or status not in (1, 5):
+                    V0("intruder-answer", "during its own query the controller application sent id 0x%08X data %s to the intruder" %
+                       (e.can_id, e.data.hex()), "ownq")
+                    break
+                if status == 5 and err != 0x000002:
+                    V0("intruder-answer-not-busy", "during its own query the controller application answered the intruder with DM15 "
+                       "'operation failed' (data %s) carrying the error indicator 0x%06X instead of 0x000002 (busy): it repeats what "
+                       "its application last passed to respond()" % (e.data.hex(), err if err is not None else -1), "ownq")
+                    break
         for k2, detail, tt in base["live"]:
             V0("liveness-" + k2, "%s %r" % (k2, detail))
         br = base["result"]
